@@ -333,6 +333,8 @@ def process_part(rep, sc):
         rep.violation({'obligation': 'correspondence: the real run does not follow Model.mainP / ends in a different state (names, contents, '
                                      'modification times); the property oracle on the real tree found nothing wrong',
                        'disagreements': len(bad), 'examples': bad[:6]}, False)
+    # a subdirectory / flag change FOLLOWED by another action of the same rule (the later action names the file again from the flags in memory)
+    import c09flagseq; rep.coverage['flag_transition_then_action'] = c09flagseq.stage(rep, tools, W, random.Random(rep.seed))
     return results, sequence_part(rep, tools, rep.tier)
 
 
